@@ -152,6 +152,12 @@ class ProblemRec:
         try:
             r = p.Calculate(pt, fv)
         except Exception as ex:      # noqa: BLE001
+            if rep != "f64" and not reuse:
+                # the point was handed over in another representation than the documented float64 array and the tree under test
+                # rejects it: noted, never judged (a wrong VALUE for such a point is judged)
+                self.notes = getattr(self, "notes", [])
+                self.notes.append("Calculate(point as %s) raised %s" % (rep, type(ex).__name__))
+                return None
             self.emit({"op": "eval", "inst": inst, "fid": str(fid), "p": qv(before), "p_after": qv(pt.floatVariables),
                        "value": "raised:" + type(ex).__name__, "holder_value": "raised:" + type(ex).__name__, "same_holder": True,
                        "raised": type(ex).__name__, "reuse": bool(reuse)})
